@@ -242,7 +242,7 @@ def step_yield(ctx):
         return BoolVal(False)
     head = ctx.p.read(E, Hpre.lo_(E), Hpre)
     return And(ys[0].t == Hpre.at(head, 0), is_kind(ys[0].t, "Frame"), ys[0].t == ctx.v("frame"),
-               Val.i(ctx.v("depth")) == Val.i(Hpre.at(head, 1)))
+               Val.i(ctx.p.ghost["depth_at_yield"]) == Val.i(Hpre.at(head, 1)))
 
 
 def repl_view(ctx):
@@ -293,7 +293,7 @@ def step_drop(ctx):
         return None
     Hm, Hd = gm[0], gd[0]
     U = ctx.v("to_unwrap")
-    d = Val.i(ctx.v("depth"))
+    d = Val.i(ctx.p.ghost["depth_at_yield"])
     c = Hd.lo_(U) - Hm.lo_(U)
     j = fresh_int("jd")
     ej = ctx.p.read(U, Hm.lo_(U) + j, Hm)
@@ -321,7 +321,14 @@ def step_push(ctx):
     eb = ctx.p.read(U, Hb.lo_(U) + (kq - npush), Hb)
     ctx.p.elem(ctx.v("items"), kq, H)            # instantiate the schema of `items` (a slice in the insert form) at kq
     form_ok = BoolVal(gd is None) == insert      # the drop loop runs iff this is NOT the insert form
-    return And(form_ok, H.length(U) == npush + Hb.length(U), H.length(ctx.v("to_elaborate")) == 0,
+    d0 = Val.i(ctx.p.ghost["depth_at_yield"])          # the elaborated frame's own depth
+    dpush = Val.i(ctx.v("depth"))
+    nxt_e = ctx.p.read(U, Hb.lo_(U), Hb)
+    # replace form: items take the frame's depth.  insert form: the inserted items are inward of this frame only - they get a
+    # depth beyond both the frame's and next_inner's, so a prune/replace issued from them stops at next_inner, and
+    # next_inner (still the first entry of the kept rest) keeps its own depth
+    depth_rule = If(insert, And(dpush >= d0, Implies(Hb.length(U) > 0, dpush > Val.i(Hb.at(nxt_e, 2)))), dpush == d0)
+    return And(form_ok, depth_rule, H.length(U) == npush + Hb.length(U), H.length(ctx.v("to_elaborate")) == 0,
                Implies(And(kq >= 0, kq < npush), And(H.at(e1, 1) == at(kq), H.at(e1, 2) == ctx.v("depth"))),
                Implies(And(kq >= npush, kq < npush + Hb.length(U)), e1 == eb))
 
@@ -535,6 +542,7 @@ INVARIANTS = {(EI, "while#1"): OUTER, (EI, "while#2"): INNER, (EI, "while#3"): D
 def on_yield(ex, p, v, node):
     # every value yielded is a Frame built (or elaborated) by this function; record the queue state for the step clauses
     ex.oblig("C10.yields_only_frames", "clause", p, is_kind(v.t, "Frame"))
+    p.ghost["depth_at_yield"] = p.env["depth"].t
     return [("ok", p, NONE_SV)]
 
 
